@@ -122,9 +122,9 @@ pub fn run(tier: &str, rec: &Recorder) -> RunOutput {
     let deadline = start + Duration::from_secs_f64(wall_cap_s(tier));
     let stats = E2Stats::new();
     let seed = std::env::var("VERIF_SEED").ok().and_then(|s| s.parse().ok()).unwrap_or(0);
-    for f in c18_families(tier) {
-        for_each_graph(&f, seed, deadline, &stats, |b, c| check_eigen(b, rec, c));
-    }
+    for_each_family(&c18_families(tier), |f| {
+        for_each_graph(f, seed, deadline, &stats, |b, c| check_eigen(b, rec, c));
+    });
     {
         let mut c = Counters::default();
         crate::large::c18_large(tier, rec, &mut c);
